@@ -224,7 +224,10 @@ def pack(value: int, size: int | None = None, endian: str = "little") -> bytes:
         size: Integer size in bits.
         endian: Endianness to use (little, big, network, <, > or !)
     """
-    size = ((size or value.bit_length()) + 7) // 8
+    if not size:
+        # Without a size, take what the value needs: a negative value needs room for its sign bit
+        size = value.bit_length() if value >= 0 else (~value).bit_length() + 1
+    size = (size + 7) // 8
     return value.to_bytes(size, ENDIANNESS_MAP.get(endian, endian), signed=value < 0)
 
 
